@@ -202,3 +202,25 @@ Proof.
   destruct (runG sh_sigma sh_inst side2 200 sh_init0 3%Z true [1;1;1;1;1]%Z) as [[r m]|] eqn:E; [|vm_compute in E; discriminate].
   exists r, m. split; [eapply reachG_reach; eapply runG_reach; exact E|]. vm_compute in E. inversion E; subst. vm_compute. split; reflexivity.
 Qed.
+
+(* the TimeDependency invariant (clause depi_b, SM/Inv.v): in every state and micro-state of every run of every instance, a
+   dependency stored in an AGV's occupied_till is that AGV's own -> WAITING / -> TRANSIT transition for its own claim, the
+   AGV waits at the pickup point, and the claimed job lies in the ordered machine post-buffer BEHIND the blocking job - so
+   a re-issued transition never moves another AGV's job, and the job a dependency waits for cannot have left the buffer *)
+Theorem C07_time_dependencies_wellformed_every_instance :
+  forall (sigma : oracle) (i : inst) (fuel : nat) (x0 : state) (joker0 : Z) (ta : bool) (r : result) (m : mw),
+    inst_nonneg_b i = true ->
+    clock_b x0 = true -> wfs_b i x0 = true -> fresh2_b i x0 = true -> nodep_b x0 = true ->
+    reach sigma i fuel x0 joker0 ta r m -> depi_b i (r_x r) = true.
+Proof. intros sigma i fuel x0 joker0 ta r m Hnn. apply run_depi; auto. Qed.
+Print Assumptions C07_time_dependencies_wellformed_every_instance.
+
+Theorem C07_time_dependencies_wellformed_micro_states_every_instance :
+  forall (sigma : oracle) (i : inst) (fuel : nat) (x0 : state) (joker0 : Z) (ta : bool) (r : result) (m : mw)
+         (a : Z) (r' : result) (m' : mw) (lg : mlog),
+    inst_nonneg_b i = true ->
+    clock_b x0 = true -> wfs_b i x0 = true -> fresh2_b i x0 = true -> nodep_b x0 = true ->
+    reach sigma i fuel x0 joker0 ta r m -> mw_step sigma i fuel r m a = MOk r' m' lg ->
+    forall tr y, In (tr, y) lg -> depi_b i y = true.
+Proof. intros sigma i fuel x0 joker0 ta r m a r' m' lg Hnn. apply run_micro_depi; auto. Qed.
+Print Assumptions C07_time_dependencies_wellformed_micro_states_every_instance.
